@@ -138,10 +138,10 @@ func runSendGroup(id int, ppk uint, cases []sendCase, scratch string, seed int64
 	ww.EmitInit()
 	for k, c := range cases {
 		s, r := fmt.Sprintf("s%d", k), fmt.Sprintf("r%d", k)
-		if err := ww.AddWallet(s, "ma"); err != nil {
+		if err := ww.AddWallet(s, "ma", nil); err != nil {
 			return nil, err
 		}
-		if err := ww.AddWallet(r, "ma"); err != nil {
+		if err := ww.AddWallet(r, "ma", nil); err != nil {
 			return nil, err
 		}
 		proofs, err := directMint(ww, "ma", amountsOf(c.Act), fmt.Sprintf("act-%d-%d", id, k))
